@@ -187,6 +187,30 @@ def gen_parse(rng, n):
     rich = tcp_header(rng, 11) + bytes([2, 4, 5, 0xb4, 4, 2, 8, 10]) + be32(0xdeadbeef) + be32(7) + bytes([1, 3, 3, 9, 34, 2, 1, 1]) + b"\x01\x02\x03"
     for i in range(len(rich) + 1):
         tcp(rich[:i])
+    # the option layouts real stacks emit (RFC 7323 appendix A and the usual SYN / SACK forms) under EVERY data offset from
+    # 5 up to the one the layout needs, with the buffer ending exactly at the declared header end, at the end of the layout,
+    # and with payload behind it: a declared header that ends inside a recognisable layout (seeded/C01d: a fast path keyed
+    # on `01 01 08 0a` that trusts the layout instead of the data offset)
+    ts = bytes([8, 10]) + be32(u32(rng)) + be32(u32(rng))
+    sack1 = bytes([5, 10]) + be32(u32(rng)) + be32(u32(rng))
+    layouts = [bytes([1, 1]) + ts,
+               bytes([2, 4, 5, 0xb4, 4, 2]) + ts + bytes([1, 3, 3, 7]),
+               bytes([2, 4, 5, 0xb4, 1, 3, 3, 8, 1, 1, 4, 2]),
+               bytes([1, 1]) + sack1,
+               bytes([1, 1]) + ts + bytes([1, 1]) + sack1,
+               bytes([1, 1]) + ts + bytes([1, 1, 5, 18]) + rb(rng, 16),
+               ts + bytes([1, 1]),
+               bytes([2, 4, 5, 0xb4]), bytes([3, 3, 7, 1]), bytes([1, 1, 4, 2]), bytes([14, 3, 1, 0])]
+    for L in layouts:
+        need = (20 + len(L) + 3) // 4
+        Lp = L + bytes([1]) * ((-len(L)) % 4)
+        for doff in range(5, need + 1):
+            h = tcp_header(rng, doff)
+            tcp((h + Lp)[:4 * doff])                      # buffer ends at the declared header end
+            tcp(h + Lp)                                    # the whole layout is there, the header says less
+            tcp(h + Lp + rb(rng, 9))
+            if doff < need:
+                tcp((h + Lp)[:4 * doff + 2])
     # UDP boundaries
     for ln in (0, 7, 8, 9, 65535):
         ops.append(f"parse UDP {hexs(udp_packet(rng, length=ln))}")
